@@ -612,7 +612,7 @@ func ruleLoaderAuthenticators(p *Program, r *Result) {
 						x = bo.Y
 					}
 					lf, lb, ok := loadedField(x)
-					if !ok || lf != f || lb != ubase {
+					if !ok || lf != f || !sameCellValue(lb, ubase) {
 						continue
 					}
 					// the load is inside the loop (re-evaluated per group)
@@ -694,4 +694,20 @@ func ruleDefaultAAA(p *Program, r *Result) {
 	r.cond(good, "R-PROVENANCE", "NewAAA:defaults", p.Pos(fn.Pos()),
 		"NewAAA starts from the default-deny authenticator, authorizer and accounter; options only replace them",
 		fmt.Sprintf("NewAAA does not start from the default-deny handlers (found %v)", set))
+}
+
+
+// sameCellValue: a and b denote the same object: identical values, or two loads of the same local cell that
+// is assigned exactly once (a parameter captured by a closure is read through its cell each time).
+func sameCellValue(a, b ssa.Value) bool {
+	if a == b {
+		return true
+	}
+	ua, ok1 := a.(*ssa.UnOp)
+	ub, ok2 := b.(*ssa.UnOp)
+	if !ok1 || !ok2 || ua.Op != token.MUL || ub.Op != token.MUL || ua.X != ub.X {
+		return false
+	}
+	al, ok := ua.X.(*ssa.Alloc)
+	return ok && len(allocStores(al)) == 1
 }
